@@ -199,4 +199,269 @@ Section Build.
       end.
     all: try (eapply (Hcase [_] [ya]); [apply Hsingle; exact Ha | reflexivity]).
   Qed.
+
+  Lemma matmul_sound_pt a b c : matmul a b = Ok c ->
+    forall x y1 y, denote b x = Some y1 -> denote a y1 = Some y -> denote c x = Some y.
+  Proof.
+    intros H x y1 y H1 H2.
+    pose proof (matmul_sound K k0 k1 kadd kmul ksub kopp Kth keqb keqb_eq leafsem LF a b c H x y) as Hs.
+    unfold Denote.chain in Hs. cbn [fold_right obind] in Hs. apply Hs. rewrite H1. exact H2.
+  Qed.
+
+  (* ---------- k * A, A / k, -A, A - B ---------- *)
+  Theorem smul_sound k a c : smul k a = Ok c ->
+    forall x y, denote a x = Some y -> denote c x = Some (vscale k y).
+  Proof.
+    unfold Algebra.smul. intros H x y Ha.
+    pose proof (matmul_sound K k0 k1 kadd kmul ksub kopp Kth keqb keqb_eq leafsem LF _ _ _ H) as Hs.
+    specialize (Hs x (vscale k y)). unfold Denote.chain in Hs. cbn [fold_right obind] in Hs.
+    apply Hs. rewrite Ha. reflexivity.
+  Qed.
+
+  Theorem sdiv_sound a k c : sdiv a k = Ok c ->
+    forall x y, denote a x = Some y -> denote c x = Some (vscale (kinv k) y).
+  Proof. unfold Algebra.sdiv. apply smul_sound. Qed.
+
+  Lemma mapM_smul k l l' : mapM (smul k) l = Ok l' ->
+    forall x ys, omapl (fun e => denote e x) l = Some ys ->
+    omapl (fun e => denote e x) l' = Some (map (vscale k) ys).
+  Proof.
+    revert l'. induction l as [|e l IH]; intros l' H x ys Hy; cbn [mapM bind omapl] in *.
+    - inversion H; inversion Hy; subst. reflexivity.
+    - destruct (smul k e) as [e'|] eqn:Ee; [|discriminate]. cbn [bind] in H.
+      destruct (mapM (smul k) l) as [l1|] eqn:El; [|discriminate]. cbn [bind] in H. inversion H; subst l'.
+      destruct (denote e x) as [y1|] eqn:E1; [|discriminate].
+      destruct (omapl _ l) as [ys1|] eqn:E2; [|discriminate]. inversion Hy; subst ys.
+      cbn [omapl map]. rewrite (smul_sound _ _ _ Ee x y1 E1). rewrite (IH l1 eq_refl x ys1 E2). reflexivity.
+  Qed.
+
+  Theorem neg_sound a c : neg a = Ok c ->
+    forall x y, denote a x = Some y -> denote c x = Some (vscale (kopp k1) y).
+  Proof.
+    unfold Algebra.neg. destruct a as [ia ca sia soa pa|ia wa ea|ia sa|ia ka sa|ia la|ia la|ia ba tda la];
+      try apply smul_sound.
+    intros H x y Ha. destruct (mapM _ la) as [l'|] eqn:El; [|discriminate]. cbn in H. inversion H; subst c.
+    rewrite denote_add in Ha |- *. destruct (omapl _ la) as [ys|] eqn:Ey; [|discriminate]. cbn in Ha.
+    rewrite (mapM_smul _ _ _ El x ys Ey). cbn. rewrite (vsum_vscale Kth). now rewrite Ha.
+  Qed.
+
+  Theorem sub_sound a b c : sub a b = Ok c ->
+    forall x ya yb y, denote a x = Some ya -> denote b x = Some yb ->
+    vadd ya (vscale (kopp k1) yb) = Some y -> denote c x = Some y.
+  Proof.
+    unfold Algebra.sub.
+    destruct (negb (struct_eqb (in_struct a) (in_struct b))); [discriminate|].
+    destruct (negb (struct_eqb (out_struct a) (out_struct b))); [discriminate|].
+    destruct (neg b) as [nb|] eqn:En; [|discriminate]. cbn. intros H x ya yb y Ha Hb Hy.
+    eapply add_sound; eauto. eapply neg_sound; eauto.
+  Qed.
+
+  (* ---------- however the product is parenthesised ---------- *)
+  Theorem matmul_assoc_sound a b c ab abc bc abc' :
+    matmul a b = Ok ab -> matmul ab c = Ok abc -> matmul b c = Ok bc -> matmul a bc = Ok abc' ->
+    forall x y, chain [a; b; c] x = Some y -> denote abc x = Some y /\ denote abc' x = Some y.
+  Proof.
+    intros H1 H2 H3 H4 x y Hc.
+    pose proof (matmul_sound K k0 k1 kadd kmul ksub kopp Kth keqb keqb_eq leafsem LF) as MS.
+    assert (CS : forall e z, denote e z = chain [e] z) by reflexivity.
+    rewrite !CS. clear CS. split.
+    - apply (MS _ _ _ H2).
+      change [ab; c] with ([ab] ++ [c]). change [a; b; c] with ([a; b] ++ [c]) in Hc.
+      revert x y Hc. apply chain_le_app; [apply (MS _ _ _ H1)|apply chain_le_refl].
+    - apply (MS _ _ _ H4).
+      change [a; bc] with ([a] ++ [bc]). change [a; b; c] with ([a] ++ [b; c]) in Hc.
+      revert x y Hc. apply chain_le_app; [apply chain_le_refl|apply (MS _ _ _ H3)].
+  Qed.
+
+  (* ---------- structures of the results, rejection of mismatching operands ---------- *)
+  Notation wfo := (@wfo K).
+  Notation chain_ok := (@chain_ok K).
+
+  Lemma struct_eqb_true a b : struct_eqb a b = true <-> a = b.
+  Proof. split; [apply struct_eqb_eq|intros ->; apply struct_eqb_refl]. Qed.
+
+  Fixpoint allwf (l : list op) : bool := match l with [] => true | x :: xs => wfo x && allwf xs end.
+  Lemma wfo_comp i l : wfo (Comp i l) = negb (Nat.eqb (List.length l) 0) && chain_ok l && allwf l.
+  Proof.
+    reflexivity.
+  Qed.
+  Lemma allwf_app l1 l2 : allwf (l1 ++ l2) = allwf l1 && allwf l2.
+  Proof. induction l1; cbn; [reflexivity|]. rewrite IHl1. now rewrite andb_assoc. Qed.
+
+  Lemma in_struct_comp i (l : list op) d : l <> [] -> in_struct (Comp i l) = in_struct (last l d).
+  Proof.
+    intros Hl. unfold in_struct. cbn [structs fst].
+    induction l as [|a l IH]; [congruence|]. destruct l as [|b l]; [reflexivity|].
+    cbn [map last] in *. apply IH. discriminate.
+  Qed.
+  Lemma out_struct_comp i (l : list op) d : l <> [] -> out_struct (Comp i l) = out_struct (hd d l).
+  Proof. intros Hl. destruct l; [congruence|reflexivity]. Qed.
+
+  Lemma last_app_nonempty (l1 l2 : list op) d : l2 <> [] -> last (l1 ++ l2) d = last l2 d.
+  Proof.
+    intros H. induction l1 as [|a l1 IH]; [reflexivity|]. cbn [app].
+    destruct (l1 ++ l2) eqn:E; [destruct l1; cbn in E; congruence|]. exact IH.
+  Qed.
+
+  Lemma chain_ok_app l1 l2 d : chain_ok l1 = true -> chain_ok l2 = true ->
+    (l1 <> [] -> l2 <> [] -> in_struct (last l1 d) = out_struct (hd d l2)) ->
+    chain_ok (l1 ++ l2) = true.
+  Proof.
+    induction l1 as [|a l1 IH]; intros H1 H2 H3; [exact H2|].
+    destruct l1 as [|b l1].
+    - cbn [app]. destruct l2 as [|c l2]; [reflexivity|].
+      change (chain_ok (a :: c :: l2)) with (struct_eqb (in_struct a) (out_struct c) && chain_ok (c :: l2)).
+      rewrite H2. rewrite andb_true_r. apply struct_eqb_true.
+      apply (H3 ltac:(discriminate) ltac:(discriminate)).
+    - change (chain_ok (a :: b :: l1)) with (struct_eqb (in_struct a) (out_struct b) && chain_ok (b :: l1)) in H1.
+      apply andb_true_iff in H1 as [Ha Hb].
+      change (chain_ok ((a :: b :: l1) ++ l2)) with (struct_eqb (in_struct a) (out_struct b) && chain_ok ((b :: l1) ++ l2)).
+      rewrite Ha. cbn [andb].
+      apply IH; auto. intros _ Hl2. apply H3; [discriminate|exact Hl2].
+  Qed.
+
+  Lemma operands_wf b : wfo b = true ->
+    operands b <> [] /\ chain_ok (operands b) = true /\ allwf (operands b) = true /\
+    (forall d, in_struct (last (operands b) d) = in_struct b) /\
+    (forall d, out_struct (hd d (operands b)) = out_struct b).
+  Proof.
+    destruct b; cbn [operands]; intros H;
+      try (split; [discriminate|]; split; [reflexivity|]; split; [cbn [allwf]; rewrite H; reflexivity|];
+           split; intros; reflexivity).
+    rewrite wfo_comp in H. apply andb_true_iff in H as [H H3]. apply andb_true_iff in H as [H1 H2].
+    assert (Hl : l <> []) by (destruct l; [discriminate|discriminate]).
+    repeat split; auto; intros d; symmetry; [apply in_struct_comp|apply out_struct_comp]; auto.
+  Qed.
+
+  Lemma wrap_structs i w x : in_struct (Wrap i w x : op) = out_struct x /\ out_struct (Wrap i w x : op) = in_struct x.
+  Proof. unfold in_struct, out_struct. cbn [structs]. destruct (structs x); auto. Qed.
+
+  Lemma lazy_inverse_wf a x : lazy_inverse_of a = Some x -> wfo a = true ->
+    in_struct a = out_struct x /\ out_struct a = in_struct x /\ in_struct x = out_struct x.
+  Proof.
+    destruct a; try discriminate. cbn [lazy_inverse_of Wf.wfo].
+    destruct (isinst (wcls w) [CAbstractLazyInverse]); [|discriminate].
+    intros H Hw. inversion H; subst. apply andb_true_iff in Hw as [_ Hs].
+    destruct (wrap_structs i w x). repeat split; auto. now apply struct_eqb_true.
+  Qed.
+
+  Lemma base_matmul_wf a b c : wfo a = true -> wfo b = true -> base_matmul keqb a b = Ok c ->
+    wfo c = true /\ in_struct c = in_struct b /\ out_struct c = out_struct a.
+  Proof.
+    intros Wa Wb. unfold base_matmul.
+    destruct (struct_eqb (in_struct a) (out_struct b)) eqn:Es; [|discriminate]. cbn [negb].
+    apply struct_eqb_true in Es.
+    assert (Hdef : c = Comp fresh [a; b] -> wfo c = true /\ in_struct c = in_struct b /\ out_struct c = out_struct a).
+    { intros ->. rewrite wfo_comp. cbn [List.length Nat.eqb negb Wf.chain_ok allwf].
+      rewrite Wa, Wb. rewrite (proj2 (struct_eqb_true _ _) Es). repeat split; reflexivity. }
+    destruct b as [ib cb sib sob pb|ib wb eb|ib sb|ib kb sb|ib lb|ib lb|ib bb tdb lb];
+      cbn [lazy_inverse_of]; try (intros H; inversion H; subst; now apply Hdef).
+    - destruct (isinst (wcls wb) [CAbstractLazyInverse]) eqn:Ei; [|intros H; inversion H; subst; now apply Hdef].
+      destruct (same eb a) eqn:Esame; [|intros H; inversion H; subst; now apply Hdef].
+      intros H; inversion H; subst c. apply same_eq in Esame; [|exact keqb_eq]. subst eb.
+      destruct (lazy_inverse_wf (Wrap ib wb a) a) as (H1 & H2 & H3); [cbn [lazy_inverse_of]; now rewrite Ei|exact Wb|].
+      split; [reflexivity|]. split.
+      * transitivity (in_struct a); [reflexivity|congruence].
+      * transitivity (in_struct a); [reflexivity|congruence].
+    - intros H; inversion H; subst c. destruct (operands_wf _ Wb) as (Hn & Hc & Hw & Hin & Hout).
+      cbn [operands] in *. rewrite wfo_comp.
+      change (a :: lb) with ([a] ++ lb). rewrite allwf_app, Hw. cbn [allwf]. rewrite Wa.
+      rewrite (chain_ok_app [a] lb a); auto.
+      + cbn [app List.length Nat.eqb negb andb]. repeat split.
+        * rewrite (in_struct_comp _ (a :: lb) a) by discriminate.
+          destruct lb as [|b0 lb]; [congruence|]. cbn [last]. change (last (b0 :: lb) a) with (last (b0 :: lb) a).
+          rewrite <- (Hin a). reflexivity.
+      + intros _ _. cbn [last]. rewrite Es. symmetry. apply Hout.
+  Qed.
+
+  Theorem matmul_wf a b c : wfo a = true -> wfo b = true -> matmul a b = Ok c ->
+    wfo c = true /\ in_struct c = in_struct b /\ out_struct c = out_struct a.
+  Proof.
+    intros Wa Wb. unfold Algebra.matmul.
+    destruct a as [ia ca sia soa pa|ia wa ea|ia sa|ia ka sa|ia la|ia la|ia ba tda la];
+      try (apply base_matmul_wf; assumption).
+    - (* lazy wrapper on the left *)
+      destruct (lazy_inverse_of (Wrap ia wa ea)) as [x|] eqn:El; [|apply base_matmul_wf; assumption].
+      destruct (same x b) eqn:Esame; [|apply base_matmul_wf; assumption].
+      intros H; inversion H; subst c. apply same_eq in Esame; [|exact keqb_eq]. subst x.
+      destruct (lazy_inverse_wf _ _ El Wa) as (H1 & H2 & H3).
+      split; [reflexivity|]. split.
+      + transitivity (in_struct (Wrap ia wa ea)); [reflexivity|congruence].
+      + transitivity (in_struct (Wrap ia wa ea)); [reflexivity|congruence].
+    - (* identity *)
+      destruct (struct_eqb (in_struct (Ident ia sa)) (out_struct b)) eqn:Es; [|discriminate]. cbn [negb].
+      apply struct_eqb_true in Es. intros H; inversion H; subst c. repeat split; auto.
+    - (* scalar *)
+      destruct b as [ib cb sib sob pb|ib wb eb|ib sb|ib kb sb|ib lb|ib lb|ib bb tdb lb];
+        try (apply base_matmul_wf; assumption).
+      destruct (struct_eqb (in_struct (Homoth ia ka sa)) (out_struct (Homoth ib kb sb))) eqn:Es; [|discriminate].
+      cbn [negb]. apply struct_eqb_true in Es. intros H; inversion H; subst c.
+      repeat split; auto.
+    - (* composition on the left *)
+      destruct (struct_eqb (in_struct (Comp ia la)) (out_struct b)) eqn:Es; [|discriminate]. cbn [negb].
+      apply struct_eqb_true in Es. intros H; inversion H; subst c.
+      destruct (operands_wf _ Wb) as (Hn & Hc & Hw & Hin & Hout).
+      destruct (operands_wf _ Wa) as (Hna & Hca & Hwa & Hina & Houta). cbn [operands] in *.
+      assert (Hne : la ++ operands b <> []) by (destruct la; [congruence|discriminate]).
+      rewrite wfo_comp, allwf_app, Hwa, Hw.
+      rewrite (chain_ok_app la (operands b) b); auto.
+      + split.
+        * destruct (la ++ operands b) eqn:E; [congruence|reflexivity].
+        * split.
+          -- rewrite (in_struct_comp _ _ b Hne). rewrite last_app_nonempty; [apply Hin|exact Hn].
+          -- rewrite (out_struct_comp _ _ b Hne). destruct la as [|a0 la]; [congruence|].
+             cbn [app hd]. symmetry. rewrite <- (Houta b). reflexivity.
+      + intros _ _. rewrite Hina, Hout. exact Es.
+  Qed.
+
+  Theorem matmul_mismatch a b : struct_eqb (in_struct a) (out_struct b) = false -> matmul a b = Err ValueError.
+  Proof.
+    intros Es. assert (Hb : base_matmul keqb a b = Err ValueError) by (unfold base_matmul; now rewrite Es).
+    unfold Algebra.matmul.
+    destruct a as [ia ca sia soa pa|ia wa ea|ia sa|ia ka sa|ia la|ia la|ia ba tda la]; try exact Hb.
+    - destruct (lazy_inverse_of (Wrap ia wa ea)) as [x|] eqn:El; [|exact Hb].
+      destruct (same x b) eqn:Esame; [|exact Hb]. exfalso.
+      apply same_eq in Esame; [|exact keqb_eq]. subst x.
+      cbn [lazy_inverse_of] in El. destruct (isinst _ _); [|discriminate]. inversion El; subst ea.
+      destruct (wrap_structs ia wa b) as [H1 _]. rewrite H1, struct_eqb_refl in Es. discriminate.
+    - now rewrite Es.
+    - destruct b; try exact Hb. now rewrite Es.
+    - now rewrite Es.
+  Qed.
+
+  Theorem add_mismatch a b :
+    struct_eqb (in_struct a) (in_struct b) = false \/ struct_eqb (out_struct a) (out_struct b) = false ->
+    add a b = Err ValueError.
+  Proof.
+    unfold Algebra.add. intros [H|H]; rewrite H; cbn [negb]; [reflexivity|].
+    destruct (negb (struct_eqb (in_struct a) (in_struct b))); reflexivity.
+  Qed.
+  Theorem sub_mismatch a b :
+    struct_eqb (in_struct a) (in_struct b) = false \/ struct_eqb (out_struct a) (out_struct b) = false ->
+    sub a b = Err ValueError.
+  Proof.
+    unfold Algebra.sub. intros [H|H]; rewrite H; cbn [negb]; [reflexivity|].
+    destruct (negb (struct_eqb (in_struct a) (in_struct b))); reflexivity.
+  Qed.
+
+  (* the structures of a sum are those of its operands *)
+  Lemma in_struct_add i (l : list op) d : in_struct (AddOp i l) = in_struct (hd d l) \/ l = [].
+  Proof. destruct l; [now right|now left]. Qed.
+  Theorem add_structs a b c : wfo a = true -> add a b = Ok c ->
+    in_struct c = in_struct a /\ out_struct c = out_struct a.
+  Proof.
+    intros Wa. unfold Algebra.add.
+    destruct (negb (struct_eqb (in_struct a) (in_struct b))); [discriminate|].
+    destruct (negb (struct_eqb (out_struct a) (out_struct b))); [discriminate|].
+    destruct a as [ia ca sia soa pa|ia wa ea|ia sa|ia ka sa|ia la|ia la|ia ba tda la].
+    6: { intros H; inversion H; subst c. cbn [Wf.wfo] in Wa. destruct la as [|a0 la]; [discriminate|]. split; reflexivity. }
+    all: destruct b; intros H; inversion H; subst c; split; reflexivity.
+  Qed.
+
+  Theorem smul_structs k a c : wfo a = true -> smul k a = Ok c ->
+    wfo c = true /\ in_struct c = in_struct a /\ out_struct c = out_struct a.
+  Proof.
+    intros Wa H. unfold Algebra.smul in H.
+    destruct (matmul_wf (Homoth fresh k (out_struct a)) a c eq_refl Wa H) as (H1 & H2 & H3). auto.
+  Qed.
 End Build.
